@@ -12,6 +12,7 @@ import (
 	"github.com/go-i2p/common/lease_set2"
 	"github.com/go-i2p/common/meta_leaseset"
 	"github.com/go-i2p/common/offline_signature"
+	"github.com/go-i2p/common/router_address"
 	"github.com/go-i2p/common/router_info"
 	"github.com/go-i2p/common/signature"
 )
@@ -167,7 +168,7 @@ func denseCut(total, destEnd int) int {
 }
 
 // H_C04_Truncation: well-formed composite encodings (content symbolic) cut at every length near each variable-length
-// region (mappings empty: their cuts are C03_Small's): the parser returns (an error), it does not panic.  LeaseSet (legacy), LeaseSet2, MetaLeaseSet,
+// region (mappings empty, except one MetaLeaseSet entry with a 30-byte one-pair properties mapping: mapping cuts are C03_Small's): the parser returns (an error), it does not panic.  LeaseSet (legacy), LeaseSet2, MetaLeaseSet,
 // EncryptedLeaseSet, RouterInfo.
 //
 //verif:props C04 C03
@@ -196,9 +197,17 @@ func H_C04_Truncation() {
 		nd.Assert(err != nil, "trunc/ls2/proper-prefix-rejected")
 		nd.Cover("cut-rejected")
 	case 2:
-		shapes := []metaShape{{7, 4, 0, -1, 0, []int{0, 0}, 0}, {7, 4, 0, 7, 0, []int{0}, 0}}
-		s := shapes[nd.IntRange(0, len(shapes)-1)]
+		shapes := []metaShape{{7, 4, 0, -1, 0, []int{0, 0}, 0}, {7, 4, 0, 7, 0, []int{0}, 0}, {7, 4, 0, -1, 0, []int{30, 0}, 0}}
+		si := nd.IntRange(0, len(shapes)-1)
+		s := shapes[si]
 		in, total := s.build()
+		if si == 2 {
+			// first entry with 30 bytes of properties: one pair, 10-byte key and 16-byte value (contents free), so
+			// that the second entry starts beyond the structure's minimum size
+			pin(in, 442, 10)
+			pin(in, 453, '=', 16)
+			pin(in, 471, ';')
+		}
 		k := denseCut(total, 391)
 		_, _, err := meta_leaseset.ReadMetaLeaseSet(in[:k])
 		nd.Assert(err != nil, "trunc/meta/proper-prefix-rejected")
@@ -260,4 +269,49 @@ func H_C04_OfflineFree() {
 		nd.Assume(in[41]&1 == 1)
 		_, _, _ = encrypted_leaseset.ReadEncryptedLeaseSet(in)
 	}
+}
+
+// riWithOption: a RouterInfo encoding (Ed25519/X25519 identity, no addresses) whose options hold one pair with the
+// given well-known key and a symbolic value of vlen bytes.
+func riWithOption(key string, vlen int) []byte {
+	pl := 1 + len(key) + 1 + 1 + vlen + 1
+	in := nd.Bytes(391 + 8 + 1 + 1 + 2 + pl + 64)
+	pinDest(in, 0, 7, 4, 0)
+	pin(in, 399, 0, 0, byte(pl>>8), byte(pl), byte(len(key)))
+	for i := 0; i < len(key); i++ {
+		pin(in, 404+i, key[i])
+	}
+	p := 404 + len(key)
+	pin(in, p, '=', byte(vlen))
+	pin(in, p+2+vlen, ';')
+	return in
+}
+
+// H_C04_KnownOptions: the accessors that interpret well-known options ("router.version", "caps" of a RouterInfo;
+// "host", "port", "i", "s", "v", "caps" and the introducer keys of a RouterAddress) on ARBITRARY values of 0..5 (RouterAddress:
+// 0..3) bytes under exactly those keys (the free-form sweeps never hit a particular key): every exported method returns normally.
+//
+//verif:props C04 C20
+//verif:witness swept
+//verif:fanout 400
+func H_C04_KnownOptions() {
+	if nd.Bool() {
+		key := []string{"router.version", "caps", "netId"}[nd.IntRange(0, 2)]
+		in := riWithOption(key, nd.IntRange(0, 5))
+		ri, _, err := router_info.ReadRouterInfo(in)
+		if err != nil {
+			return
+		}
+		nd.Cover("swept")
+		sweep_router_info_RouterInfo(&ri, nd.IntRange(0, n_sweep_router_info_RouterInfo-1))
+		return
+	}
+	keys := []string{"host", "port", "i", "s", "v", "caps", "mtu", "ihost0", "iport0", "ikey0", "itag0", "iexp0"}
+	key := keys[nd.IntRange(0, len(keys)-1)]
+	a, err := router_address.NewRouterAddress(nd.Byte(), nowZero(), "SSU2", map[string]string{key: nd.String(nd.IntRange(0, 3))})
+	if err != nil || a == nil {
+		return
+	}
+	nd.Cover("swept")
+	sweep_router_address_RouterAddress(a, nd.IntRange(0, n_sweep_router_address_RouterAddress-1))
 }
